@@ -102,6 +102,12 @@ def lexical(path):
 
 
 WS = " \t\n\v\f\r"
+KNOWN_SIG = "symlink-inside-root-followed"
+
+
+def new_viol(ck):
+    """violations other than the recorded known finding (which is re-confirmed on every run)."""
+    return [v for v in ck.viol if v["signature"] != KNOWN_SIG]
 
 
 def run_conditional(ck, binp, root, base, quick):
@@ -212,7 +218,7 @@ Fixpoint idx {A} (f : nat -> A -> list nat) (i : nat) (l : list A) : list nat :=
         ck.violation("correspondence-eval", "model evaluation (conditional requests) failed:\n" + res[-1500:], replay={"log": res[-3000:]},
                      found_input=False)
         return len(cases)
-    if res["c"] and not ck.viol:
+    if res["c"] and not new_viol(ck):
         i = res["c"][0]
         ck.violation("corr-conditional", "model handle_cond and AssetsHandler disagree: %s /%s Range=%r If-None-Match=%r cached=%s: real status %d "
                      "ETag %r (the property oracle found no failing input among %d conditional requests)" % (
@@ -235,7 +241,12 @@ def run(ck):
               "smartRangeLoading stays true (it is never assigned outside tests)")
     ck.trusted("harness/C39/c39_test.go (in-package overlay, httptest, recover around AssetsHandler)", "props/C39.py generators, oracle, comparison",
                "correspondence evaluated by vm_compute in a generated cases file")
-    ck.coq_stage(GROUP, theorems=["C39_no_panic", "C39_range_exact", "C39_contained", "C39_conditional", "C39_304_current", "C39_old_refuted"])
+    okb, logb = vf.coq_build("Sandbox")      # Assets/Resolved.v imports the tree file-system model of C26 read-only
+    if not okb:
+        ck.coq_broken = ("Sandbox", logb)
+    else:
+        ck.coq_stage(GROUP, theorems=["C39_no_panic", "C39_range_exact", "C39_contained", "C39_conditional", "C39_304_current",
+                                      "C39_symlink_refuted", "C39_old_refuted"], extra_q=("Sandbox",))
 
     base = os.path.realpath(os.path.join(ck.work, "r"))
     root = os.path.join(base, "lib")
@@ -326,7 +337,11 @@ def run(ck):
         lex = lexical(p)
         content = FILES.get(lex) if lex is not None else None
         if lex is not None and lex.split("/")[0] in ("link", "linkfile.txt"):
-            symlink_served += 1 if st in (200, 206) else 0   # observed only: symlink under the root (not covered by the theorem)
+            if st in (200, 206) and (m == "HEAD" or (body and body in SECRET)):
+                symlink_served += 1
+                # the witness of C39_symlink_refuted on the real handler: recorded as a known finding
+                ck.violation("symlink-inside-root-followed", "a symbolic link under the asset root that points outside is followed: " + desc,
+                             replay=rep(i))
             continue
         if SECRET in body or (st in (200, 206) and body and content is None and body in SECRET):
             ck.violation("escape", "content from outside the asset root was served: " + desc, replay=rep(i))
@@ -364,7 +379,7 @@ def run(ck):
     ck.cov["input_distribution"] = {"cases": len(cases), "with_range": sum(1 for c in cases if c[2] is not None),
                                     "cached": sum(1 for c in cases if c[3]), "HEAD": sum(1 for c in cases if c[0] == "HEAD"),
                                     "status": {str(s): sum(1 for r in real if r[0] == s) for s in sorted(set(r[0] for r in real))},
-                                    "symlink_under_root_served_outside_content(observed, not covered)": symlink_served}
+                                    "symlink_under_root_served_outside_content(known finding)": symlink_served}
     for i in range(0, len(cases), max(1, len(cases) // 6)):
         ck.sample({"method": cases[i][0], "path": cases[i][1], "range": cases[i][2], "status": real[i][0], "content_range": real[i][1]})
 
@@ -373,7 +388,7 @@ def run(ck):
 
     # ---- correspondence with the model
     if getattr(ck, "coq_broken", None):
-        if not ck.viol:
+        if not new_viol(ck):
             grp, log = ck.coq_broken
             ck.violation("proof-broken", "Coq development %s no longer checks (C39_no_panic / C39_range_exact / C39_contained); the "
                          "property oracle found no failing input among %d requests:\n%s" % (grp, len(cases), log[-1200:]),
@@ -422,7 +437,7 @@ Fixpoint idx {A} (f : nat -> A -> list nat) (i : nat) (l : list A) : list nat :=
     if not ok:
         ck.violation("correspondence-eval", "model evaluation failed:\n" + res[-1500:], replay={"log": res[-3000:]}, found_input=False)
         return
-    found = bool(ck.viol)
+    found = bool(new_viol(ck))
     flat, k, nval = res["r"], 0, 0
     for i in ridx:
         n = flat[k]
